@@ -297,7 +297,7 @@ PRIOR_USES = [None, None, {"constraints": [True, False], "order": "eq_ineq"}, {"
               {"constraints": [True, True], "order": "ineq_eq"}]
 
 
-def line_search_stalled(det):
+def line_search_stalled(det, mild=False):
     """signature of known finding C11-F2 / C10-F2: the run stopped although the projected-gradient step it last proposed,
     y = P(x - grad/mu) - x, is far from zero (the step is not a descent direction, the backtracking factor collapsed and the
     loss difference fell below the threshold).  A run that converged - to whatever point - ends with y ~ 0."""
@@ -306,7 +306,17 @@ def line_search_stalled(det):
         return False
     y = np.asarray(ys[-1], dtype=float)
     x = np.asarray(det.x[-1], dtype=float)
-    return bool(np.linalg.norm(y) > 1e-3 * (1.0 + np.linalg.norm(x)))
+    ny, nx = float(np.linalg.norm(y)), float(np.linalg.norm(x))
+    if ny > 1e-3 * (1.0 + nx):
+        return True
+    if not mild:
+        return False
+    # the milder form of the same stall (C11 optimality facet, thorough tier, seed 3; noisy data): the backtracking factor of
+    # the last step has collapsed (1e-5 ... 1e-12) while the proposed step is still 1e-3 long - a converged run takes its
+    # last steps with a factor near 1.  Only C11's optimality oracles use this form; C10's exact-recovery oracles keep the
+    # strict one (a wrong projection also ends in a collapsed line search, and must stay reported there: seed C10-f).
+    al = getattr(det, "alpha", None)
+    return bool(al) and float(al[-1]) < 1e-2 and ny > 1e-4 * (1.0 + nx)
 
 
 def proj_cap_hit(ctx, configured=None):
@@ -378,15 +388,18 @@ def check_lossmin(case, ctx):
 @st.composite
 def wiring_case(draw, tier):
     kinds = ("qst", "povmt", "qpt") if tier == "quick" else ("qst", "povmt", "qpt", "qmpt")
-    c = draw(tomo.tomo_case(kinds, ("1q",), (2, 3)))
+    # (a qutrit now and then: building the tomography and one projection are cheap, and sizes beyond one qubit are where a
+    # dimension-dependent constant of a projection would be wrong)
+    shape_pool = ("1q", "1q", "1q", "qutrit") if tier == "quick" else ("1q", "1q", "qutrit", "2q")
+    c = draw(tomo.tomo_case(kinds, shape_pool, (2, 3)))
     t = tomo.true_type(c["tomo"])
     c["algo"] = draw(st.sampled_from(ALGOS))
     c["constraints"] = draw(st.sampled_from([[True, True], [True, True], [True, False], [False, True], [False, False]]))
     c["order"] = draw(st.sampled_from(["eq_ineq", "ineq_eq"]))
     c["k_proj"] = draw(st.sampled_from([1, 2, 3, 7, 40]))       # max_iteration_proj_physical
     c["m_opt"] = draw(st.sampled_from([1, 5, 11, 1000]))         # max_iteration_optimization (must not leak into the projection)
-    d = 2
-    n = {"state": 4, "povm": 4 * c["true"].get("m", 2), "gate": 16, "mprocess": 16 * c["true"].get("m", 2)}[t]
+    d2 = gen.dim_of(c["shape"]) ** 2
+    n = {"state": d2, "povm": d2 * c["true"].get("m", 2), "gate": d2 * d2, "mprocess": d2 * d2 * c["true"].get("m", 2)}[t]
     c["point"] = draw(gen.raw(n))
     c["point_scale"] = draw(st.sampled_from([0.3, 1.0, 3.0]))
     return c
@@ -418,6 +431,15 @@ def check_wiring(case, ctx):
         want = var
     ctx.close(got, np.asarray(want, dtype=float), 0.0, "algorithm_projection_is_the_configured_projection",
               f"constraints={case['constraints']} max_iteration_proj_physical={case['k_proj']} max_iteration_optimization={case['m_opt']}")
+    ctx.label(case["shape"])
+    if eq_on and not ineq_on:
+        # the equality projection alone is exact in one step: what the algorithm projects onto satisfies the constraint
+        # (independent of the library: the refmodel's defect of the stacked form)
+        t_ = tomo.true_type(case["tomo"])
+        z = np.asarray(tmpl.convert_var_to_stacked_vector(c_sys, got.copy(), on_para_eq_constraint=flag), dtype=float)
+        dfc = rm.eq_defect_stacked(t_, z, info["d"], info["m"])
+        ctx.check(dfc <= 1e-12 * (1.0 + float(np.max(np.abs(z)))), "algorithm_eq_projection_satisfies_the_constraint",
+                  f"{t_} on {case['shape']} flag={flag}: equality defect {dfc:.3e}")
     ctx.nontrivial(case["k_proj"] != case["m_opt"] and (eq_on and ineq_on))
 
 
